@@ -95,21 +95,37 @@ def isWr : LPC → Bool
   | .wUnlock => true
   | _ => false
 
+/-- scans made on behalf of a send (not of a probe) -/
+def sendK : ScanK → Bool
+  | .probe _ => false
+  | _ => true
+
+/-- no write in progress -/
+def idleLike (c : Core) : Prop := c.head = c.sent.length ∧ c.dirty = false
+
 def sFact (c : Core) : SPC → Prop
-  | .sEnter k h p => c.head = c.sent.length ∧ c.dirty = false ∧ hOK k h c.head ∧ isRd p = true
-  | .sScan k h _ done _ m => c.head = c.sent.length ∧ c.dirty = false ∧ hOK k h c.head ∧
-        (∀ r, r ∈ done → r < c.nextCell) ∧ (∀ v, m = some v → ∀ r, r ∈ done → v ≤ c.cur r) ∧ (m = none → done = [])
-  | .sHead2 _ _ _ m => c.head = c.sent.length ∧ c.dirty = false ∧ m + c.cap ≤ c.lim
-  | .sExit k h _ _ m => c.head = c.sent.length ∧ c.dirty = false ∧ (∀ v, m = some v → hOK2 k h c.head ∧ v + c.cap ≤ c.lim)
-  | .bHead _ k => c.head = c.sent.length ∧ c.dirty = false ∧ 0 < k ∧ c.head + k ≤ c.lim
-  | .wSeqLd _ h j k => c.head = h ∧ c.sent.length = h + j ∧ j < k ∧ h + k ≤ c.lim ∧ c.dirty = false
+  | .sFlag _ => idleLike c
+  | .sHead k => idleLike c ∧ (sendK k = true → c.sclosed = false)
+  | .sEnter k h p => idleLike c ∧ (sendK k = true → c.sclosed = false) ∧ hOK k h c.head ∧ isRd p = true
+  | .sScan k h _ done _ m => idleLike c ∧ (sendK k = true → c.sclosed = false) ∧ hOK k h c.head ∧
+        (∀ r, r ∈ done → r < c.nextCell) ∧
+        (∀ v, m = some v → (∀ r, r ∈ done → v ≤ c.cur r) ∧ v ≤ c.sent.length) ∧ (m = none → done = [])
+  | .sHead2 k _ _ m => idleLike c ∧ (sendK k = true → c.sclosed = false) ∧ m + c.cap ≤ c.lim ∧ m ≤ c.sent.length
+  | .sExit k h _ _ m => idleLike c ∧ (sendK k = true → c.sclosed = false) ∧
+        (∀ v, m = some v → hOK2 k h c.head ∧ v + c.cap ≤ c.lim ∧ v ≤ c.sent.length)
+  | .bHead _ k => idleLike c ∧ c.sclosed = false ∧ 0 < k ∧ c.head + k ≤ c.lim
+  | .wSeqLd _ h j k => c.head = h ∧ c.sent.length = h + j ∧ j < k ∧ h + k ≤ c.lim ∧ c.dirty = false ∧ c.sclosed = false
   | .wVal _ h j k q => c.head = h ∧ c.sent.length = h + j ∧ j < k ∧ h + k ≤ c.lim ∧ c.dirty = false ∧
-        q = c.seq ((h + j) % c.cap)
+        q = c.seq ((h + j) % c.cap) ∧ c.sclosed = false
   | .wSeqSt x h j k => c.head = h ∧ c.sent.length = h + j ∧ j < k ∧ h + k ≤ c.lim ∧ c.dirty = true ∧
-        c.val ((h + j) % c.cap) = x.items.getD j 0
-  | .wHeadSt _ h k => c.head = h ∧ c.sent.length = h + k ∧ c.dirty = false
-  | .cStore => c.head = c.sent.length ∧ c.dirty = false ∧ c.sclosed = true
-  | _ => c.head = c.sent.length ∧ c.dirty = false
+        c.val ((h + j) % c.cap) = x.items.getD j 0 ∧ c.sclosed = false
+  | .wHeadSt _ h k => c.head = h ∧ c.sent.length = h + k ∧ c.dirty = false ∧ c.sclosed = false
+  | .cFlag _ => idleLike c
+  | .cStore => idleLike c ∧ c.sclosed = true
+  | .cLock _ => idleLike c
+  | .cWake _ _ => idleLike c
+  | .cUnlock _ => idleLike c
+  | _ => idleLike c ∧ c.sclosed = false
 
 /-- the handle is open, its cell exists and is not a half-made clone -/
 def rBase (c : Core) (r : Nat) : Prop := r < c.nextCell ∧ c.resv r = none ∧ c.rclosed r = false
@@ -142,19 +158,19 @@ def rFact (c : Core) (t r : Nat) : RPC → Prop
   | .rVal _ k => rBase c r ∧ k = c.cur r ∧ k < c.sent.length
   | .rSt _ k vs => rBase c r ∧ k = c.cur r ∧ k + vs.length ≤ c.sent.length ∧ vs = (c.sent.drop k).take vs.length
   | .rDrop _ k => rBase c r ∧ k = c.cur r
-  | .rHead _ k => rBase c r ∧ k = c.cur r
+  | .rHead _ k => rBase c r ∧ k = c.cur r ∧ c.pdropped = true
   | .bHd _ k => rBase c r ∧ k = c.cur r
   | .bDrop _ k => rBase c r ∧ k = c.cur r
-  | .bHd2 _ k => rBase c r ∧ k = c.cur r
+  | .bHd2 _ k => rBase c r ∧ k = c.cur r ∧ c.pdropped = true
   | .bVals _ k n => rBase c r ∧ k = c.cur r ∧ k + n ≤ c.head
   | .gCur _ => rBase c r
   | .gLock _ k => rBase c r ∧ k = c.cur r
   | .gUnlock _ k => rBase c r ∧ k = c.cur r
   | .eDrop _ => rBase c r
-  | .eHead _ => rBase c r
-  | .eCur _ _ => rBase c r
-  | .eLock _ k => rBase c r ∧ k = c.cur r
-  | .eUnlock _ k => rBase c r ∧ k = c.cur r
+  | .eHead _ => rBase c r ∧ c.pdropped = true
+  | .eCur _ h => rBase c r ∧ c.pdropped = true ∧ h = c.head
+  | .eLock _ k => rBase c r ∧ k = c.cur r ∧ c.pdropped = true ∧ c.head ≤ k
+  | .eUnlock _ k => rBase c r ∧ k = c.cur r ∧ c.pdropped = true ∧ c.head ≤ k
   | .kPark _ => rBase c r
   | .kCur _ => rBase c r
   | .cCur => rBase c r
